@@ -20,6 +20,17 @@ pub struct Case {
     pub base: BFCase,
     /// index into the list of candidate scale factors
     pub ci: usize,
+    /// when present, the building and factors come from the DHW grammar (small DHW quantities,
+    /// auxiliaries, shared PV, biomass): the absolute thresholds of the DHW indicator are in reach
+    #[serde(default)]
+    pub dhw: Option<crate::dhw::DhwCase>,
+}
+
+pub fn base_of(c: &Case) -> BFCase {
+    match &c.dhw {
+        Some(d) => BFCase { b: d.building(), f: d.factors(), k: d.k, area: c.base.area, lm: d.lm },
+        None => c.base.clone(),
+    }
 }
 
 pub fn candidates() -> Vec<f32> {
@@ -33,7 +44,7 @@ pub fn candidates() -> Vec<f32> {
 pub fn effective_c(c: &Case) -> (f32, bool) {
     let cands = candidates();
     let want = cands[c.ci % cands.len()];
-    match magnitude_range(&c.base.b) {
+    match magnitude_range(&base_of(c).b) {
         None => (want, false),
         Some((lo, hi)) => {
             let ok = |k: f32| (lo * k) >= 0.01 && (hi * k) <= 1e9 && lo >= 0.01;
@@ -85,10 +96,12 @@ impl Prop for C11 {
         let mut p = params(tier);
         p.with_needs = true;
         p.huge_kwh = 0;
-        (bf_case(p, 40), 0usize..candidates().len()).prop_map(|(base, ci)| Case { base, ci }).boxed()
+        (bf_case(p, 40), 0usize..candidates().len(), proptest::option::weighted(0.3, crate::dhw::dhw_case(12)))
+            .prop_map(|(base, ci, dhw)| Case { base, ci, dhw })
+            .boxed()
     }
     fn describe(c: &Case) -> Value {
-        let mut v = c.base.describe();
+        let mut v = base_of(c).describe();
         v["scale"] = serde_json::json!(effective_c(c).0);
         v
     }
@@ -98,11 +111,15 @@ impl Prop for C11 {
             ctx.label("scale_fallback");
         }
         ctx.label(if cf == 1.0 { "c=1".to_string() } else if cf > 1.0 { "c>1".to_string() } else { "c<1".to_string() });
-        let b0 = &c.base.b;
+        let base = base_of(c);
+        if c.dhw.is_some() {
+            ctx.label("dhw_grammar");
+        }
+        let b0 = &base.b;
         let b1 = scale(b0, cf);
-        let i0 = inputs(b0, &c.base.f)?;
-        let i1 = inputs(&b1, &c.base.f)?;
-        let (k, area, lm) = (c.base.k, c.base.area, c.base.lm);
+        let i0 = inputs(b0, &base.f)?;
+        let i1 = inputs(&b1, &base.f)?;
+        let (k, area, lm) = (base.k, base.area, base.lm);
         let e0 = eval_sound(&i0.comps, &i0.factors, k, area, lm)?;
         let e1 = eval_sound(&i1.comps, &i1.factors, k, area, lm)?;
         let sc0 = i0.scales(area);
